@@ -245,6 +245,15 @@ func OlderVersion(f *spec.File) *spec.File {
 	o.GoName = f.GoName + "v0"
 	rot := map[int32]int32{1: 4, 4: 1, 2: 3, 3: 5, 5: 2}
 	for _, s := range o.Services {
+		// the older version also lives under another base path and declares other service headers:
+		// whatever a generator resolves "once per service" must be resolved per (package, service)
+		if s.BasePath != nil {
+			bp := "/legacy" + "/" + strings.Trim(*s.BasePath, "/")
+			s.BasePath = &bp
+		} else {
+			s.BasePath = spec.S("/legacy")
+		}
+		s.Headers = append([]spec.Header{{Name: "X-Legacy-Token", Type: "string", Required: true}}, s.Headers...)
 		for _, m := range s.Methods {
 			if m.HTTP == nil {
 				continue
